@@ -15,12 +15,16 @@ import (
 func init() {
 	vfRegister("VfC15_reconcile_q", VfC15_reconcile_q)
 	vfRegister("VfC15_reconcile_t", VfC15_reconcile_t)
+	vfRegister("VfC15_reconcile_qx", VfC15_reconcile_qx)
 }
 
 func vfC15(nNH, nNHG, nTop, members int, kinds []int) {
 	I := rib.VfBuild("I.", nNH, nNHG, nTop, members, kinds, false)
 	T := rib.VfBuild("T.", nNH, nNHG, nTop, members, kinds, false)
-	extra := vfBool("target-only-instance")
+	vfC15Run(I, T, vfBool("target-only-instance"))
+}
+
+func vfC15Run(I, T *rib.VfWorld, extra bool) {
 	if extra {
 		T.AddInstance("VRF-B")
 		seed := &spb.AFTOperation{Id: 1 << 62, NetworkInstance: "VRF-B", Op: spb.AFTOperation_ADD,
@@ -76,6 +80,10 @@ func vfC15(nNH, nNHG, nTop, members int, kinds []int) {
 	vfAssert(err == nil && ops2.IsEmpty(), "C15:equal-ribs-yield-no-operations")
 	vfReach("end")
 }
+
+// reconcile_qx: cross-instance references - a next-hop and a group in each instance on both sides, one IPv4
+// entry per side in either instance whose group instance is unset (= its own instance) or explicit.
+func VfC15_reconcile_qx() { vfC15Run(rib.VfBuildSplit("I."), rib.VfBuildSplit("T."), false) }
 
 func VfC15_reconcile_q() { vfC15(1, 1, 1, 1, rib.VfKinds(true, false, true)) }
 func VfC15_reconcile_t() { vfC15(2, 1, 1, 2, rib.VfKinds(true, true, true)) }
